@@ -103,6 +103,18 @@ func (p paramList) Set(s string) error {
 	return nil
 }
 
+type redirList map[string]string
+
+func (p redirList) String() string { return fmt.Sprint(map[string]string(p)) }
+func (p redirList) Set(s string) error {
+	kv := strings.SplitN(s, "=", 2)
+	if len(kv) != 2 {
+		return fmt.Errorf("want from=to")
+	}
+	p[kv[0]] = kv[1]
+	return nil
+}
+
 func cmdRun(args []string) int {
 	fs := flag.NewFlagSet("run", flag.ExitOnError)
 	pkg := fs.String("pkg", "", "package pattern relative to /repo, e.g. ./idr")
@@ -122,6 +134,8 @@ func cmdRun(args []string) int {
 	verbose := fs.Bool("v", false, "verbose")
 	params := paramList{}
 	fs.Var(params, "param", "k=v (repeatable)")
+	redir := redirList{}
+	fs.Var(redir, "redirect", "realFn=harnessFn (repeatable)")
 	fs.Parse(args)
 
 	prog, spkgs, err := loadProgram(*hroot, []string{*pkg})
@@ -139,7 +153,7 @@ func cmdRun(args []string) int {
 		}
 		cfg := &Config{Unwind: *unwind, MaxDepth: *depth, Solver: *solver, TimeoutMs: *timeout, Workers: *workers,
 			MaxPaths: *maxPaths, MapOrder: *mapOrder, Params: params, Known: map[string]bool{}, DeadlineSec: *deadline,
-			Validate: *validate, Verbose: *verbose}
+			Validate: *validate, Verbose: *verbose, Redirect: redir}
 		for _, k := range strings.Split(*known, ",") {
 			if k != "" {
 				cfg.Known[k] = true
